@@ -31,10 +31,22 @@ def main():
         os.environ['VERIF_ONLY_UNIT'] = only
     try:
         code = mod.run(a.tier, seed)
-    except Exception:
-        traceback.print_exc()
-        print(f'CHECKER-FAULT property={a.prop} crash')
-        code = 3
+    except Exception as e:
+        from . import report
+        where = report.raised_by_the_code_under_test(e)
+        rep = report.CURRENT[0]
+        if where and rep is not None:
+            # the real code of the repository raised while a check ran it on a legal configuration: a violation (what was decided up to
+            # here is kept; the rest of this check did not run)
+            rep.add('native:code-under-test', f'the real code handles every legal configuration the check runs it on without raising ({type(e).__name__} at {where})',
+                    'ground', False, detail={'traceback': traceback.format_exc()[-1500:]},
+                    replay={'reproduced': True, 'raised': f'{type(e).__name__}: {e}', 'where': where})
+            rep.notes.append('INCOMPLETE RUN: the code under test raised inside the check; obligations after that point were not generated.')
+            code = rep.finish()
+        else:
+            traceback.print_exc()
+            print(f'CHECKER-FAULT property={a.prop} crash')
+            code = 3
     sys.exit(code)
 
 
